@@ -113,8 +113,20 @@ func selectWorkloadServices(typedServiceInfos []TypedServiceInfo) []model.Servic
 	// better meaning both:
 	//     a is older than b
 	//     b is not a Kubernetes Service
+	// Equally old candidates are decided by the namespace and name of their source: the candidates arrive in no
+	// particular order and the canonical one is picked while ranging over a map, so leaving ties to "first met"
+	// made the winner depend on the order in which the objects were created.
 	isBetter := func(a, b model.ServiceInfo) bool {
-		return a.CreationTime.Before(b.CreationTime) && b.Source.Kind != kind.Service
+		if b.Source.Kind == kind.Service {
+			return false
+		}
+		if c := a.CreationTime.Compare(b.CreationTime); c != 0 {
+			return c < 0
+		}
+		if a.Source.Namespace != b.Source.Namespace {
+			return a.Source.Namespace < b.Source.Namespace
+		}
+		return a.Source.Name < b.Source.Name
 	}
 	// Pick the winner for each namespace: a Kubernetes Service always wins, else the oldest.
 	for _, tsi := range typedServiceInfos {
